@@ -7,6 +7,7 @@ from .. import engine as en
 from .. import outparse as op
 
 ID = 'C13'
+ANCHOR_FILES = ['generator/generator_shared.py', 'solver/fileIO.py']
 LEVEL = 'exploration'
 NEEDS_DEPS = True
 EXHAUSTIVE = True
